@@ -111,6 +111,26 @@ class C22(LLCheck):
                 ops += [rng.choice(["ev 0", "ev 0", "timeout", "ev 16"]) for _ in range(14)]
                 ops += ["timeout"] * rng.choice([0, 3, 40]) + ["st"]
                 cases.append(mk("update", v, ops))
+            # 4b. two (three) updates with the SAME interval / latency / timeout and different transmit windows, the later ones
+            #     delivered while the first is pending or after it was applied: connection_changed reports the same values each
+            #     time, the monitor has to judge every instant against its own update's window
+            for k in range(24 if not ctx.thorough else 150):
+                niv, nla = rng.choice([(80, 0), (80, 1), (24, 0), (400, 0)])
+                nto = min(3200, max((nla + 1) * 2 * niv * 1250 // 10000 + 1, rng.choice([200, 3200])))
+                ops = connected(rng, interval=rng.choice([24, 80, 800]), latency=0, timeout=3200, sca=rng.randrange(8))
+                def upd(inst):
+                    return ctrl(0, le(rng.choice([1, 2, 3]), 1) + le(rng.choice([0, 1, 3, 5]), 2) + le(niv, 2) + le(nla, 2) + le(nto, 2) + le(inst, 2))
+                i1 = rng.choice([3, 5])
+                i2 = i1 + rng.choice([2, 6, 10])
+                ops.append("ev 0 " + upd(i1))
+                if rng.random() < 0.5:
+                    ops.append("ev 0 " + upd(i2))               # delivered while the first is pending
+                    ops += ["ev 0"] * rng.choice([12, 16])
+                else:
+                    ops += ["ev 0"] * (i1 + 1)                   # first one applied
+                    ops.append("ev 0 " + upd(i1 + 12) + (" " + upd(i1 + 20) if rng.random() < 0.3 else ""))
+                    ops += [rng.choice(["ev 0", "ev 0", "ev 0", "timeout"]) for _ in range(26)]
+                cases.append(mk("likeupd", v, ops + ["st"]))
             # 5. random sessions
             for k in range(60 if not ctx.thorough else 500):
                 cases.append(mk("rnd", v, session(rng, v, rng.choice([15, 40]), instants=True)))
